@@ -300,6 +300,34 @@ impl Agg {
     }
 }
 
+std::thread_local! {
+    static MY_SLOT: std::cell::RefCell<Option<(std::sync::Arc<(AtomicU64, AtomicU64)>, std::sync::Arc<AtomicU64>)>> = const { std::cell::RefCell::new(None) };
+    static MINIMISE_DEADLINE: std::cell::Cell<Option<std::time::Instant>> = const { std::cell::Cell::new(None) };
+}
+
+/// Called by an engine when a run has returned and only the harness's own post-processing of a violation is
+/// left (minimisation, confirmation of the replay file): the watchdog must not take that for a run of the system
+/// under test that never returns. Candidates executed from here on are bounded one by one (`with_timeout`), and
+/// the minimiser as a whole by a wall-clock budget that can only make the replay file longer, never change a verdict.
+/// With `stop_others` the batch's other workers are told at once to skip runs beyond this one (what they would be
+/// told anyway when the violation is recorded, only earlier: they need not minimise violations nobody will report).
+pub fn post_processing_begins(minimise_budget_s: u64, stop_others: bool) {
+    MY_SLOT.with(|s| {
+        if let Some((slot, stop_at)) = s.borrow().as_ref() {
+            let idx = slot.0.swap(u64::MAX, Ordering::AcqRel);
+            if stop_others && idx != u64::MAX {
+                stop_at.fetch_min(idx, Ordering::Relaxed);
+            }
+        }
+    });
+    MINIMISE_DEADLINE.with(|d| d.set(Some(std::time::Instant::now() + std::time::Duration::from_secs(minimise_budget_s))));
+}
+
+/// true once the minimiser's wall-clock budget is used up (its candidates then count as "does not fail")
+pub fn minimise_expired() -> bool {
+    MINIMISE_DEADLINE.with(|d| d.get().map_or(false, |t| std::time::Instant::now() > t))
+}
+
 /// Run `runs` simulated executions on `workers` threads. `f(idx, agg)` executes
 /// run `idx` and records into the worker's aggregate. Once a violation has
 /// been recorded at index v, runs with a larger index are skipped (all smaller
@@ -316,12 +344,12 @@ where
     H: Fn(u64) + Sync,
 {
     let next = AtomicU64::new(0);
-    let stop_at = AtomicU64::new(u64::MAX);
+    let stop_at = std::sync::Arc::new(AtomicU64::new(u64::MAX));
     let total = Mutex::new(Agg::default());
     let workers = workers.max(1);
     let t0 = std::time::Instant::now();
     // (current run index or u64::MAX, start in ms since t0)
-    let slots: Vec<(AtomicU64, AtomicU64)> = (0..workers).map(|_| (AtomicU64::new(u64::MAX), AtomicU64::new(0))).collect();
+    let slots: Vec<std::sync::Arc<(AtomicU64, AtomicU64)>> = (0..workers).map(|_| std::sync::Arc::new((AtomicU64::new(u64::MAX), AtomicU64::new(0)))).collect();
     let live = AtomicU64::new(workers as u64);
     let timeout_ms = run_timeout().as_millis() as u64;
     const CHUNK: u64 = 64;
@@ -329,6 +357,7 @@ where
         for w in 0..workers {
             let (next, stop_at, total, slots, live, f) = (&next, &stop_at, &total, &slots, &live, &f);
             s.spawn(move || {
+                MY_SLOT.with(|m| *m.borrow_mut() = Some((slots[w].clone(), stop_at.clone())));
                 let mut agg = Agg::default();
                 loop {
                     let start = next.fetch_add(CHUNK, Ordering::Relaxed);
@@ -365,7 +394,8 @@ where
             while live.load(Ordering::Acquire) > 0 {
                 std::thread::sleep(std::time::Duration::from_millis(100));
                 let now = t0.elapsed().as_millis() as u64;
-                for (idx, start) in slots.iter() {
+                for slot in slots.iter() {
+                    let (idx, start) = (&slot.0, &slot.1);
                     let i = idx.load(Ordering::Acquire);
                     if i != u64::MAX && now.saturating_sub(start.load(Ordering::Relaxed)) > timeout_ms && idx.load(Ordering::Acquire) == i {
                         on_hang(i);
@@ -412,6 +442,34 @@ pub fn report_hang(property: &str, seed: u64, idx: u64, scenario: Value) -> ! {
 }
 
 /// Run `f` on a helper thread; None if it does not finish within the run timeout.
+/// Run `f` on a thread of its own: whatever the system under test keeps in thread-locals starts from its initial
+/// state, so that a run (and every candidate of the minimiser) is a function of its scenario only, whichever worker
+/// executes it and whatever ran on that worker before. A panic of `f` is re-raised in the caller.
+pub fn fresh_thread<R: Send>(f: impl FnOnce() -> R + Send) -> R {
+    std::thread::scope(|s| match std::thread::Builder::new().stack_size(16 << 20).spawn_scoped(s, f).expect("spawn").join() {
+        Ok(r) => r,
+        Err(e) => std::panic::resume_unwind(e),
+    })
+}
+
+/// Does `bin/check replay` of this scenario report a violation in a fresh process? (Process-wide state a change
+/// adds to the system under test survives from run to run inside a batch process; a replay file must not depend on
+/// it.) `Some(true)`: violation reproduced, `Some(false)`: no violation, `None`: could not tell.
+pub fn reproduces_in_fresh_process(property: &str, class: &str, scenario: &Value, tag: u64) -> Option<bool> {
+    let dir = verif_root().join("target").join("tmp-replays");
+    let _ = std::fs::create_dir_all(&dir);
+    let path = dir.join(format!("{property}-{}-{tag}.json", std::process::id()));
+    write_json(&path, &json!({"property": property, "class": class, "scenario": scenario}));
+    let exe = std::env::current_exe().ok()?;
+    let out = std::process::Command::new(exe).arg("replay").arg(&path).stdin(std::process::Stdio::null()).output().ok();
+    let _ = std::fs::remove_file(&path);
+    match out?.status.code() {
+        Some(1) => Some(true),
+        Some(0) => Some(false),
+        _ => None,
+    }
+}
+
 pub fn with_timeout<R: Send + 'static>(f: impl FnOnce() -> R + Send + 'static) -> Option<R> {
     let (tx, rx) = std::sync::mpsc::channel();
     std::thread::Builder::new()
